@@ -18,7 +18,7 @@ From RU Require Import Base.Prelude Base.Utf8 Model.AsciiSet Gen.Tables Model.Pe
   Proofs.C01_EqAuthModel Proofs.C01_EqSpModel Proofs.C01_EqRelArms Proofs.C01_EqSpBase
   Proofs.C01_EqAsm Proofs.C01_EqShape Proofs.C01_KnownExact Proofs.C01_EqCover
   Proofs.C03_ReachParts
-  Proofs.C07_Defs Proofs.C07_Histories Proofs.C07_Corr Proofs.C07_SpecProto Proofs.C07_EqSix
+  Proofs.C07_Defs Proofs.C07_Histories Proofs.C07_Corr Proofs.C07_SpecProto Proofs.C07_EqProto Proofs.C07_EqSix
   Proofs.C07_EqFive Proofs.C07_EqHostname Proofs.C07_EqSeven
   Proofs.C07_EqRel Proofs.C07_SpecInv Proofs.C07_ParseExtra.
 
@@ -85,14 +85,29 @@ Proof.
   destruct o; [exact (K ho H1) | exact (K hp H0)].
 Qed.
 
-(* Known_C01 without a base contains every input whose scheme is "file" *)
-Lemma known_nobase_not_file input sch rem :
+(* Known_C01 without a base no longer contains every input whose scheme is "file" (class 1 was narrowed by the
+   raw-segment recogniser k_file_ok of Model/KnownC01.v): the bridge related => corrS is proved for schemes other
+   than "file" only, so file inputs are excluded explicitly (input_is_file of Proofs/C07_ParseExtra.v) *)
+Lemma input_not_file input sch rem :
   parse_scheme CUrlParser (input_new_trim_c0 input) = Some (sch, rem) ->
-  known_c01 None input = 0 -> list_eqb sch s_file = false.
+  input_is_file input = false -> list_eqb sch s_file = false.
 Proof.
-  intros Es Hk. apply scheme_state_some in Es. apply spec_scheme_some_leading in Es. destruct Es as [El _].
-  unfold known_c01 in Hk. cbv zeta in Hk. unfold cleaned in Hk. fold (ntnl (input_new_trim_c0 input)) in Hk.
-  rewrite El in Hk. destruct (list_eqb sch s_file); [discriminate Hk | reflexivity].
+  intros Es Hif. unfold input_is_file in Hif. rewrite Es in Hif.
+  rewrite C07_EqProto.file_test_same in Hif. exact Hif.
+Qed.
+
+(* outside Known_C01 and not "file" = outside the former predicate known_c01_v1 (class 1 = the whole file scheme),
+   on which C01_statement_all stands *)
+Lemma known_v1_of input : known_c01 None input = 0 -> input_is_file input = false -> known_c01_v1 None input = 0.
+Proof.
+  intros Hk Hif. unfold known_c01 in Hk. cbv zeta in Hk.
+  destruct ((known_c01_v1 None input =? 1) && k_file_narrow None input) eqn:E; [|exact Hk].
+  exfalso. apply andb_true_iff in E. destruct E as [_ E]. unfold k_file_narrow in E. cbv zeta in E.
+  unfold cleaned in E. fold (ntnl (input_new_trim_c0 input)) in E. unfold input_is_file in Hif.
+  destruct (parse_scheme CUrlParser (input_new_trim_c0 input)) as [[sch rem]|] eqn:Es.
+  - apply scheme_state_some in Es. apply spec_scheme_some_leading in Es. destruct Es as [El _]. rewrite El in E.
+    rewrite C07_EqProto.file_test_same in Hif. change str_file with s_file in Hif. rewrite Hif in E. discriminate E.
+  - apply scheme_state_none in Es. apply spec_scheme_none_leading in Es. rewrite Es in E. discriminate E.
 Qed.
 
 Lemma not_file_type sch : list_eqb sch s_file = false -> st_is_file (scheme_type_of sch) = false.
@@ -103,12 +118,12 @@ Proof.
 Qed.
 
 (* ---------- parsing outside Known_C01 yields corrS ---------- *)
-Theorem parse_all_corrS input u : usv_list input -> known_c01 None input = 0 ->
+Theorem parse_all_corrS input u : usv_list input -> known_c01 None input = 0 -> input_is_file input = false ->
   parse_url dbg hp ho hd None None input = POk u ->
   exists su, spec_basic_url_parse shp input None = BDone su /\ corrS dbg shs u su.
 Proof.
-  intros Hu Hk Hp.
-  destruct (statement_all dbg hp ho hd shp shs input None None Hu I Hk (host_hyp3_all None input)) as [A Hfull].
+  intros Hu Hk Hif Hp.
+  destruct (statement_all dbg hp ho hd shp shs input None None Hu I (known_v1_of input Hk Hif) (host_hyp3_all None input)) as [A Hfull].
   rewrite Hp in A. unfold agree_good in A.
   destruct (spec_basic_url_parse shp input None) as [su|uf|] eqn:Hs; [|destruct A as [e A]; discriminate A | contradiction].
   exists su. split; [reflexivity|].
@@ -117,9 +132,8 @@ Proof.
   (* the scheme is not file *)
   destruct (parse_scheme CUrlParser (input_new_trim_c0 input)) as [[sch rem]|] eqn:Es.
   2:{ unfold parse_url in Hp. rewrite Es in Hp. discriminate Hp. }
-  pose proof (known_nobase_not_file input sch rem Es Hk) as Hnf.
+  pose proof (input_not_file input sch rem Es Hif) as Hnf.
   pose proof (not_file_type sch Hnf) as Hnft.
-  assert (input_is_file input = false) as Hif by (unfold input_is_file; rewrite Es; exact Hnft).
   pose proof (parse_nobase_scheme dbg hp ho hd None input sch rem u Es Hnft Hp) as Esch.
   pose proof (rel_sch _ _ _ _ R) as Rsch. rewrite Esch in Rsch.
   destruct (parse_nobase_extra dbg hp ho hd None HW input u Hu Hif Hp) as [MW MT MU MN].
@@ -151,20 +165,23 @@ Definition href_fits (v : list N) : Prop :=
   | _ => True
   end.
 
-Theorem href_step u su v : corrS dbg shs u su -> usv_list v -> known_c07 u QHref v = 0 -> href_fits v ->
+(* a value the href clause covers: it fits, and its scheme is not "file" (see input_not_file above) *)
+Definition href_ok (v : list N) : Prop := href_fits v /\ input_is_file v = false.
+
+Theorem href_step u su v : corrS dbg shs u su -> usv_list v -> known_c07 u QHref v = 0 -> href_ok v ->
   exists u' su', model_set dbg hp ho hd QHref u v = Some u' /\ spec_step shp QHref su v = Some su'
     /\ corrS dbg shs u' su'.
 Proof.
-  intros C Hv Hk Hfit. cbn [known_c07] in Hk.
+  intros C Hv Hk [Hfit Hif]. cbn [known_c07] in Hk.
   assert (known_c01 None v = 0) as Hk1.
   { destruct (known_c01 None v =? 0) eqn:E; [apply N.eqb_eq; exact E | lia]. }
   clear Hk. unfold href_fits in Hfit.
-  destruct (statement_all dbg hp ho hd shp shs v None None Hv I Hk1 (host_hyp3_all None v)) as [A _].
+  destruct (statement_all dbg hp ho hd shp shs v None None Hv I (known_v1_of v Hk1 Hif) (host_hyp3_all None v)) as [A _].
   unfold spec_step. cbn [setter_of_q spec_set model_set]. unfold agree_good in A.
   destruct (spec_basic_url_parse shp v None) as [su'|uf|] eqn:Hs.
   - destruct A as [_ [[Ho Hl]|(u' & Hp & _)]]; [lia|].
     rewrite Hp. exists u', su'. split; [reflexivity|]. split; [reflexivity|].
-    destruct (parse_all_corrS v u' Hv Hk1 Hp) as (su2 & Hs2 & C2). rewrite Hs in Hs2. injection Hs2 as <-. exact C2.
+    destruct (parse_all_corrS v u' Hv Hk1 Hif Hp) as (su2 & Hs2 & C2). rewrite Hs in Hs2. injection Hs2 as <-. exact C2.
   - destruct A as [e A]. rewrite A. exists u, su. split; [reflexivity|]. split; [reflexivity | exact C].
   - contradiction.
 Qed.
@@ -173,10 +190,10 @@ Qed.
 Fixpoint eight_ops (ops : list (qsetter * list N)) : Prop :=
   match ops with
   | [] => True
-  | (s, v) :: r => (seven s = true \/ (s = QHref /\ href_fits v)) /\ usv_list v /\ eight_ops r
+  | (s, v) :: r => (seven s = true \/ (s = QHref /\ href_ok v)) /\ usv_list v /\ eight_ops r
   end.
 
-Theorem eight_step u su s v : corrS dbg shs u su -> (seven s = true \/ (s = QHref /\ href_fits v)) -> usv_list v ->
+Theorem eight_step u su s v : corrS dbg shs u su -> (seven s = true \/ (s = QHref /\ href_ok v)) -> usv_list v ->
   known_c07 u s v = 0 ->
   exists u' su', model_set dbg hp ho hd s u v = Some u' /\ spec_step shp s su v = Some su' /\ corrS dbg shs u' su'.
 Proof.
@@ -216,7 +233,7 @@ Proof.
 Qed.
 
 (* ---------- C07_statement restricted to the seven setters ---------- *)
-Theorem seven_from_parse_all input u ops : usv_list input -> known_c01 None input = 0 ->
+Theorem seven_from_parse_all input u ops : usv_list input -> known_c01 None input = 0 -> input_is_file input = false ->
   parse_url dbg hp ho hd None None input = POk u ->
   seven_ops ops -> outside_known dbg hp ho hd u ops ->
   exists su, spec_basic_url_parse shp input None = BDone su
@@ -226,8 +243,8 @@ Theorem seven_from_parse_all input u ops : usv_list input -> known_c01 None inpu
          /\ spec_run shp su (firstn n ops) = Some su'
          /\ model_api dbg u' = Some (spec_api_list shs su').
 Proof.
-  intros Hu Hk Hp Hops Hout.
-  destruct (parse_all_corrS input u Hu Hk Hp) as (su & Hs & C).
+  intros Hu Hk Hif Hp Hops Hout.
+  destruct (parse_all_corrS input u Hu Hk Hif Hp) as (su & Hs & C).
   exists su. split; [exact Hs|]. split; [exact (corr_api dbg shs u su (proj1 C))|].
   intros n.
   destruct (seven_histories dbg hp ho hd shp shs (proj1 HP) ops u su C Hops Hout n) as (u' & su' & A & B & _ & D).
@@ -237,7 +254,7 @@ Qed.
 Theorem statement_seven_all :
   exists R : url -> spec_url -> Prop,
     (forall u su, R u su -> model_api dbg u = Some (spec_api_list shs su))
-    /\ (forall input u, usv_list input -> known_c01 None input = 0 ->
+    /\ (forall input u, usv_list input -> known_c01 None input = 0 -> input_is_file input = false ->
           parse_url dbg hp ho hd None None input = POk u ->
           exists su, spec_basic_url_parse shp input None = BDone su /\ R u su)
     /\ (forall u su s v, R u su -> seven s = true -> usv_list v -> known_c07 u s v = 0 ->
@@ -251,10 +268,10 @@ Qed.
 Theorem statement_eight_all :
   exists R : url -> spec_url -> Prop,
     (forall u su, R u su -> model_api dbg u = Some (spec_api_list shs su))
-    /\ (forall input u, usv_list input -> known_c01 None input = 0 ->
+    /\ (forall input u, usv_list input -> known_c01 None input = 0 -> input_is_file input = false ->
           parse_url dbg hp ho hd None None input = POk u ->
           exists su, spec_basic_url_parse shp input None = BDone su /\ R u su)
-    /\ (forall u su s v, R u su -> (seven s = true \/ (s = QHref /\ href_fits v)) -> usv_list v -> known_c07 u s v = 0 ->
+    /\ (forall u su s v, R u su -> (seven s = true \/ (s = QHref /\ href_ok v)) -> usv_list v -> known_c07 u s v = 0 ->
           exists u' su', model_set dbg hp ho hd s u v = Some u' /\ spec_step shp s su v = Some su' /\ R u' su').
 Proof.
   exists (corrS dbg shs). split; [intros u su C; exact (corr_api dbg shs u su (proj1 C))|].
